@@ -67,9 +67,9 @@ def decide(eng: Engine, harness, post, inputs, r: ObResult, describe=None, max_c
             r.note = "post: %s" % e
             _fill(eng, r, t0)
             return r
-        if p is None:  # path outside the claim (e.g. legitimately rejected input) – still counts for reachability
+        reach = True  # the harness ran to its end on this path (a rejected input is a meaningful outcome)
+        if p is None:  # nothing to assert on this path (e.g. legitimately rejected input)
             continue
-        reach = True
         plist = list(p) if isinstance(p, (list, tuple)) else [p]
         cond = conj(plist)
         eng.solver.set("timeout", 8000)
